@@ -5,6 +5,7 @@
 //
 //   float_driver table <file> <nrandom> <seed>   float unary functions on the TLC-exported boundary table + random
 //   float_driver dtable <tier> <nrandom> <seed>  double unary functions on all/sampled exponents x boundary mantissas
+//   float_driver ltable <tier> <nrandom> <seed> long double (x87): exact set on exponents x boundary mantissas + pairs
 //   float_driver binary <tier> <nrandom> <seed>  binary / ternary functions, both precisions: boundary grid x random
 //   float_driver approx <tier> <nrandom> <seed>  approximating unary functions, both precisions
 //   float_driver complex <tier> <nrandom> <seed> etl::complex functions (sample)
@@ -25,6 +26,7 @@
 #include <cstdio>
 #include <cstdlib>
 #include <cstring>
+#include <limits>
 #include <numeric>
 #include <string>
 #include <type_traits>
@@ -143,6 +145,29 @@ void put_val(double v)
     out.num((long)(b & 0x3FFFFFF));
     out.put("]");
 }
+// x87 extended precision: [sign, biased exponent (15 bit), explicit integer bit, fraction hi/mid/lo 21 bit each]
+void put_val(long double v)
+{
+    static_assert(std::numeric_limits<long double>::digits == 64, "x87 80-bit long double expected");
+    uint64_t sig = 0;
+    uint16_t se  = 0;
+    std::memcpy(&sig, &v, 8);
+    std::memcpy(&se, reinterpret_cast<char const*>(&v) + 8, 2);
+    uint64_t fr = sig & 0x7FFFFFFFFFFFFFFFull;
+    out.put("[");
+    out.num(se >> 15);
+    out.put(",");
+    out.num(se & 0x7FFF);
+    out.put(",");
+    out.num((long)(sig >> 63));
+    out.put(",");
+    out.num((long)(fr >> 42));
+    out.put(",");
+    out.num((long)((fr >> 21) & 0x1FFFFF));
+    out.put(",");
+    out.num((long)(fr & 0x1FFFFF));
+    out.put("]");
+}
 void put_val(bool v) { out.num(v ? 1 : 0); }
 void put_val(int v) { out.num(v); }
 template <class L>
@@ -169,7 +194,7 @@ void put_val(long long v) { put_long(v); }
 template <class T>
 constexpr char const* prec()
 {
-    return std::is_same_v<T, float> ? "f" : "d";
+    return std::is_same_v<T, float> ? "f" : std::is_same_v<T, double> ? "d" : "l";
 }
 
 char const* g_mode = "rt";
@@ -517,6 +542,102 @@ void binary_exact(T x, T y)
 #endif
 }
 
+// long double (x87): the exact set only, run time
+long double mkl(unsigned s, unsigned e, uint64_t frac)
+{
+    uint64_t sig = (frac & 0x7FFFFFFFFFFFFFFFull) | (e != 0 ? 0x8000000000000000ull : 0ull); // canonical integer bit
+    uint16_t se  = (uint16_t)((s << 15) | (e & 0x7FFF));
+    long double v = 0;
+    std::memcpy(&v, &sig, 8);
+    std::memcpy(reinterpret_cast<char*>(&v) + 8, &se, 2);
+    return v;
+}
+void unary_exact_l(long double x)
+{
+    using T = long double;
+#if VH_HAVE_floor
+    CALL1(floor, T, x);
+#endif
+#if VH_HAVE_ceil
+    CALL1(ceil, T, x);
+#endif
+#if VH_HAVE_trunc
+    CALL1(trunc, T, x);
+#endif
+#if VH_HAVE_round
+    CALL1(round, T, x);
+#endif
+#if VH_HAVE_rint
+    CALL1(rint, T, x);
+#endif
+#if VH_HAVE_fabs
+    CALL1(fabs, T, x);
+#endif
+#if VH_HAVE_signbit
+    CALL1(signbit, T, x);
+#endif
+#if VH_HAVE_isnan
+    CALL1(isnan, T, x);
+#endif
+#if VH_HAVE_isinf
+    CALL1(isinf, T, x);
+#endif
+#if VH_HAVE_isfinite
+    CALL1(isfinite, T, x);
+#endif
+}
+void binary_exact_l(long double x, long double y)
+{
+    using T = long double;
+#if VH_HAVE_copysign
+    CALL2(copysign, T, x, y);
+#endif
+#if VH_HAVE_fmin
+    CALL2(fmin, T, x, y);
+#endif
+#if VH_HAVE_fmax
+    CALL2(fmax, T, x, y);
+#endif
+#if VH_HAVE_nextafter_l
+    CALL2(nextafter, T, x, y);
+#endif
+}
+void run_ltable(bool thorough, long nrandom, uint64_t seed)
+{
+    auto pats = mant_patterns(63);
+    std::vector<int> exps;
+    for (int e = 0; e < 32768; ++e) {
+        bool near = (e >= 16383 - 3 && e <= 16383 + 66);
+        if (near || e < 3 || e > 32764 || (thorough ? e % 128 == 0 : e % 4096 == 0)) { exps.push_back(e); }
+    }
+    long n = 0;
+    for (int e : exps) {
+        for (unsigned s = 0; s < 2; ++s) {
+            for (size_t i = 0; i < pats.size(); ++i) {
+                if (!thorough && i >= 3 && i + 4 < pats.size() && (i + (size_t)e) % 3 != 0) { continue; } // quick: a third
+                unary_exact_l(mkl(s, (unsigned)e, pats[i]));
+                ++n;
+            }
+        }
+    }
+    Rng g(seed + 53);
+    for (long i = 0; i < nrandom; ++i) {
+        uint64_t r = g.next();
+        unary_exact_l(mkl((unsigned)(r & 1), (unsigned)(16383 - 2 + (r >> 8) % 70), g.next()));
+    }
+    // pairs: values that are NOT representable as double next to integers and limits
+    std::vector<long double> G = {0.0L, 1.0L, 3.0L - 0x1p-60L, 3.0L, 3.0L + 0x1p-61L, 0.5L + 0x1p-64L, 0x1p63L - 1.0L, 0x1p63L, 0x1p63L + 2.0L,
+                                  0x1p64L - 1.0L, 0x1.fffffffffffffffep+16383L, 0x1p-16382L, 0x1p-16445L, 0x1.8p-16400L,
+                                  std::numeric_limits<long double>::infinity(), std::numeric_limits<long double>::quiet_NaN()};
+    size_t const ng = G.size();
+    for (size_t i = 0; i < ng; ++i) { G.push_back(-G[i]); }
+    for (long double a : G) {
+        unary_exact_l(a);
+        for (long double b : G) { binary_exact_l(a, b); }
+    }
+    std::fprintf(stderr, "INPUTS ltable=%ld random=%ld\n", n, nrandom);
+}
+
 template <class T>
 void binary_approx(T x, T y)
 {
@@ -669,6 +790,38 @@ void complex_fns(T a, T b, T c, T d)
 #endif
 }
 
+template <class T>
+void complex_self(T a, T b)
+{
+#if VH_HAVE_complex
+    using IC = impl::complex<T>;
+    using SC = std::complex<T>;
+    // aliasing: both operands are the same object (binary operators), rhs is *this (compound assignments, also through
+    // a reference)
+    #define CXSELF(NAME, OP)                                                                                                             \
+        {                                                                                                                                \
+            IC u {launder(a), launder(b)};                                                                                               \
+            SC v {launder(a), launder(b)};                                                                                               \
+            auto r = G(u OP u);                                                                                                          \
+            auto q = v OP v;                                                                                                             \
+            evc<T>("c_" NAME "_self", a, b, r.real(), r.imag(), q.real(), q.imag());                                                     \
+        }                                                                                                                                \
+        {                                                                                                                                \
+            IC u {launder(a), launder(b)};                                                                                               \
+            SC v {launder(a), launder(b)};                                                                                               \
+            IC const& ur = u;                                                                                                            \
+            SC const& vr = v;                                                                                                            \
+            G((u OP## = ur, 0));                                                                                                         \
+            v OP## = vr;                                                                                                                 \
+            evc<T>("c_" NAME "eq_self", a, b, u.real(), u.imag(), v.real(), v.imag());                                                   \
+        }
+    CXSELF("add", +)
+    CXSELF("sub", -)
+    CXSELF("mul", *)
+    CXSELF("div", /)
+#endif
+}
+
 // ------------------------------------------------------------------------------------------------
 // groups
 // ------------------------------------------------------------------------------------------------
@@ -814,11 +967,20 @@ void run_complex_t(long nrandom, uint64_t seed)
 {
     T const vals[] = {(T)0, (T)1, (T)-1, (T)0.5, (T)-0.5, (T)2, (T)-2, (T)3.25, (T)-7.75, (T)0.001, (T)10};
     for (T a : vals) {
-        for (T b : vals) { complex_fns<T>(a, b, (T)1.5, (T)-2.25); }
+        for (T b : vals) {
+            complex_fns<T>(a, b, (T)1.5, (T)-2.25);
+            complex_self<T>(a, b);
+        }
+    }
+    // aliased operands on small-integer components (exact results: 2z, 0, z*z, 1)
+    T const ints[] = {(T)0, (T)1, (T)-1, (T)2, (T)3, (T)4, (T)-4, (T)5, (T)-12, (T)100, (T)1000, (T)-2047};
+    for (T a : ints) {
+        for (T b : ints) { complex_self<T>(a, b); }
     }
     Rng g(seed + 41);
     for (long i = 0; i < nrandom; ++i) {
         complex_fns<T>(rnd_moderate<T>(g, 3), rnd_moderate<T>(g, 3), rnd_moderate<T>(g, 3), rnd_moderate<T>(g, 3));
+        complex_self<T>(rnd_moderate<T>(g, 3), rnd_moderate<T>(g, 3));
     }
 }
 
@@ -849,6 +1011,8 @@ int main(int argc, char** argv)
     } else if (g == "approx") {
         run_approx_t<float>(thorough, nr, seed);
         run_approx_t<double>(thorough, nr, seed);
+    } else if (g == "ltable") {
+        run_ltable(thorough, nr, seed);
     } else if (g == "complex") {
         run_complex_t<float>(nr, seed);
         run_complex_t<double>(nr, seed);
